@@ -303,7 +303,9 @@ func c16Targets() []c16Target {
 		e(pk.name+".Set(rich type) --flag=<input>", func(s string) error {
 			var firstErr error
 			f := c16RichFlags[len(s)%len(c16RichFlags)]
-			argvs := [][]string{{"--" + f + "=" + s}, {"--" + f, s}, {s}, {"-" + s}}
+			// one occurrence in both spellings, stray arguments, and repeated occurrences (the flag helpers merge them)
+			argvs := [][]string{{"--" + f + "=" + s}, {"--" + f, s}, {s}, {"-" + s},
+				{"--" + f + "=", "--" + f + "=" + s}, {"--" + f + "=" + s, "--" + f + "="}, {"--" + f + "=" + s, "--" + f + "=" + s}}
 			argv := argvs[(len(s)/len(c16RichFlags))%len(argvs)]
 			src, _, err := pk.build(false, &c16Rich{}, argv)
 			if err == nil {
@@ -436,6 +438,8 @@ func namedLeaves() []*gen.Leaf {
 	out := gen.LeavesWith(gen.CapNamed, 0)
 	// user-declared pointers too
 	out = append(out, gen.LeafByName("*int"), gen.LeafByName("*string"), gen.LeafByName("*TU"))
+	// durations (substituted by the file decoders) alone and in fixed-size arrays, and a plain array
+	out = append(out, gen.LeafByName("duration"), gen.LeafByName("[2]duration"), gen.LeafByName("[3]int"))
 	return out
 }
 
@@ -502,6 +506,10 @@ func c16Types(w *fw.Worker, i int, r *fw.Rand, cw *c16Watch) {
 			for _, lr := range leaves {
 				lf := lr.Leaf().Leaf
 				if lf.Text != nil && r.Chance(60) {
+					if k := lf.Type.Kind(); (k == reflect.Slice || k == reflect.Map) && lf.Caps&gen.CapTextU == 0 && r.Chance(25) {
+						// an empty occurrence first; the next one is merged into it
+						argv = append(argv, "--"+flagName(pk.tagKey, false, lr)+"=")
+					}
 					argv = append(argv, "--"+flagName(pk.tagKey, false, lr)+"="+lf.Text(lf.Gen(r, c.Next())))
 				}
 			}
